@@ -1,0 +1,149 @@
+// Verification hooks (compiled only with `--cfg plonk_verif`).
+//
+// Thin public wrappers over crate-private composer state and seams. They add
+// no logic of their own and are absent from every normal build.
+
+use alloc::vec::Vec;
+
+use dusk_bls12_381::BlsScalar;
+use dusk_jubjub::{JubJubAffine, JubJubExtended};
+
+use super::constraint_system::Selector;
+use super::{Composer, Constraint, Witness, WitnessPoint};
+use crate::error::Error;
+
+/// Plain-data view of one gate: the 11 selectors in the order
+/// `q_m q_l q_r q_o q_f q_c q_arith q_range q_logic q_fixed q_variable`
+/// and the four wire indices `a b c d`.
+pub type VerifGate = ([BlsScalar; 11], [usize; 4]);
+
+impl Composer {
+    /// Gates, witness values and (row, value) public inputs, sorted by row.
+    pub fn verif_snapshot(
+        &self,
+    ) -> (Vec<VerifGate>, Vec<BlsScalar>, Vec<(usize, BlsScalar)>) {
+        let gates = self
+            .constraints
+            .iter()
+            .map(|g| {
+                (
+                    [
+                        g.q_m,
+                        g.q_l,
+                        g.q_r,
+                        g.q_o,
+                        g.q_f,
+                        g.q_c,
+                        g.q_arith,
+                        g.q_range,
+                        g.q_logic,
+                        g.q_fixed_group_add,
+                        g.q_variable_group_add,
+                    ],
+                    [g.a.index(), g.b.index(), g.c.index(), g.d.index()],
+                )
+            })
+            .collect();
+        let pis = self
+            .public_input_indexes()
+            .into_iter()
+            .zip(self.public_inputs())
+            .collect();
+        (gates, self.witnesses.clone(), pis)
+    }
+
+    /// Overwrite the value of an allocated witness.
+    pub fn verif_set_witness(&mut self, w: Witness, v: BlsScalar) {
+        self.witnesses[w.index()] = v;
+    }
+
+    /// Witness handle from a raw index.
+    pub fn verif_witness(index: usize) -> Witness {
+        Witness::new(index)
+    }
+
+    /// Point handle from two witnesses.
+    pub fn verif_witness_point(x: Witness, y: Witness) -> WitnessPoint {
+        WitnessPoint::new(x, y)
+    }
+
+    /// Runtime-width seam over `range_check`.
+    pub fn verif_range_check(&mut self, w: Witness, num_bits: usize) {
+        self.range_check(w, num_bits)
+    }
+
+    /// Seam over `assert_torsion_free_gates`.
+    pub fn verif_assert_torsion_free_gates(
+        &mut self,
+        point: WitnessPoint,
+        q: JubJubAffine,
+    ) {
+        self.assert_torsion_free_gates(point, q)
+    }
+
+    /// Seam over `add_point_gates`.
+    pub fn verif_add_point_gates(
+        &mut self,
+        a: WitnessPoint,
+        b: WitnessPoint,
+    ) -> WitnessPoint {
+        self.add_point_gates(a, b)
+    }
+
+    /// Seam over `append_fixed_base_signed_digits`.
+    pub fn verif_fixed_base_signed_digits(
+        &mut self,
+        jubjub: Witness,
+        generator: JubJubExtended,
+        digits: &[i8; 256],
+    ) -> Result<WitnessPoint, Error> {
+        self.append_fixed_base_signed_digits(jubjub, generator, digits)
+    }
+
+    /// Seam over `bind_truncation_split`.
+    pub fn verif_bind_truncation_split(
+        &mut self,
+        input: Witness,
+        low: Witness,
+        num_bits: usize,
+    ) {
+        self.bind_truncation_split(input, low, num_bits)
+    }
+
+    /// Seam over `assert_canonical_truncation`.
+    pub fn verif_assert_canonical_truncation(
+        &mut self,
+        high: Witness,
+        low: Witness,
+        num_bits: usize,
+    ) {
+        self.assert_canonical_truncation(high, low, num_bits)
+    }
+
+    /// Seam over `assert_canonical_jubjub_scalar`.
+    pub fn verif_assert_canonical_jubjub_scalar(&mut self, scalar: Witness) {
+        self.assert_canonical_jubjub_scalar(scalar)
+    }
+}
+
+impl Constraint {
+    /// Set any of the 12 coefficients by index (0..=6 external, 7..=11 the
+    /// internal gate-family selectors), to build raw rows.
+    pub fn verif_set(self, index: usize, v: BlsScalar) -> Self {
+        let sel = match index {
+            0 => Selector::Multiplication,
+            1 => Selector::Left,
+            2 => Selector::Right,
+            3 => Selector::Output,
+            4 => Selector::Fourth,
+            5 => Selector::Constant,
+            6 => Selector::PublicInput,
+            7 => Selector::Arithmetic,
+            8 => Selector::Range,
+            9 => Selector::Logic,
+            10 => Selector::GroupAddFixedBase,
+            _ => Selector::GroupAddVariableBase,
+        };
+        if index == 6 { self.public(v) } else { self.set(sel, v) }
+    }
+}
